@@ -99,21 +99,48 @@ func (e *env) define(name string, s string) {
 		return
 	}
 	e.pool[s] = name
-	fmt.Fprintf(&e.prelude, "Definition %s : string := Eval vm_compute in %s.\n", name, CStr(s))
+	fmt.Fprintf(&e.prelude, "Definition %s : string := Eval vm_compute in %s.\n", name, cstr(s))
 }
 
 func (e *env) ms(t time.Time) int64 { return t.UnixMilli() - e.t0.UnixMilli() }
 
-// parseFact asks crypto/x509 about some bytes.
-func (e *env) parseFact(b []byte) string {
+// parseFact asks crypto/x509 about some bytes; S prints a byte string.
+func (e *env) parseFact(b []byte, S func(string) string) string {
 	rl, err := x509.ParseRevocationList(b)
 	if err != nil {
 		return "PErr"
 	}
 	if rl.NextUpdate.IsZero() {
-		return "(POk None)"
+		return CApp("POk", S(string(rl.Raw)), "None")
 	}
-	return "(POk (Some " + CZ(e.ms(rl.NextUpdate)) + "))"
+	return CApp("POk", S(string(rl.Raw)), CSome(CZ(e.ms(rl.NextUpdate))))
+}
+
+// cstr prints a byte string; a mostly printable string with a few other bytes
+// is printed as a concatenation of literals and short byte lists.
+func cstr(s string) string {
+	bad := 0
+	for i := 0; i < len(s); i++ {
+		if s[i] < 0x20 || s[i] > 0x7e {
+			bad++
+		}
+	}
+	if bad == 0 || bad*4 > len(s) || len(s) < 16 {
+		return CStr(s)
+	}
+	var parts []string
+	i := 0
+	for i < len(s) {
+		j := i
+		isBad := func(c byte) bool { return c < 0x20 || c > 0x7e }
+		b := isBad(s[i])
+		for j < len(s) && isBad(s[j]) == b {
+			j++
+		}
+		parts = append(parts, CStr(s[i:j]))
+		i = j
+	}
+	return "(" + strings.Join(parts, " ++ ") + ")"
 }
 
 func keyOf(u string) string {
@@ -479,9 +506,6 @@ func (e *env) execute(id int64, sb string, hc *hcase) string {
 	build := func(S func(string) string) string {
 		var shaT []string
 		for _, u := range skeys {
-			if _, ok := e.pool[u]; ok {
-				continue // in sha_pool
-			}
 			h := sha256.Sum256([]byte(u))
 			shaT = append(shaT, CPair(S(u), S(string(h[:]))))
 		}
@@ -502,7 +526,7 @@ func (e *env) execute(id int64, sb string, hc *hcase) string {
 			if _, ok := e.crlPoolFact(b); ok {
 				continue // in crl_tab
 			}
-			parT = append(parT, CPair(S(b), e.parseFact([]byte(b))))
+			parT = append(parT, CPair(S(b), e.parseFact([]byte(b), S)))
 		}
 		var opT, resT []string
 		for _, o := range hc.Ops {
@@ -546,7 +570,7 @@ func (e *env) execute(id int64, sb string, hc *hcase) string {
 		for _, p := range outside {
 			oT = append(oT, S(p))
 		}
-		in := CApp("mk_input", CApp("app", CList(shaT), "sha_pool"), CList(decT), CApp("app", CList(parT), "crl_tab"), CList(opT))
+		in := CApp("mk_input", CList(shaT), CList(decT), CApp("app", CList(parT), "crl_tab"), CList(opT))
 		ob := CApp("mk_obs", CList(resT), CList(wT), CList(fileT), CList(oT), CBool(rec.tempsOK))
 		return CApp("mk_case", CN(id), in, ob)
 	}
@@ -570,10 +594,10 @@ func (e *env) emit(build func(S func(string) string) string) string {
 			}
 			nm := fmt.Sprintf("k%d_", len(names))
 			names[s] = nm
-			lets = append(lets, "let "+nm+" := "+CStr(s)+" in ")
+			lets = append(lets, "let "+nm+" := "+cstr(s)+" in ")
 			return nm
 		}
-		return CStr(s)
+		return cstr(s)
 	})
 	if len(lets) == 0 {
 		return term
@@ -631,7 +655,12 @@ func runC15(a *Args) error {
 			e.define("crl_"+c.Label, string(c.Raw))
 		}
 		if c.Kind != "W" && c.Kind != "N" {
-			tab = append(tab, CPair("crl_"+c.Label, e.parseFact(c.Raw)))
+			tab = append(tab, CPair("crl_"+c.Label, e.parseFact(c.Raw, func(s string) string {
+				if n, ok := e.pool[s]; ok {
+					return n
+				}
+				return cstr(s)
+			})))
 		}
 		return c
 	}
@@ -664,7 +693,6 @@ func runC15(a *Args) error {
 		strings.Repeat("../", 40) + "evil2", "../cache.txt", "../cache", "cache", "../../a/cache/" + keyOf(u0)}
 	long := []string{"http://h/" + strings.Repeat("a", 5000), "http://h/" + strings.Repeat("a", 4999) + "b",
 		"http://h/" + strings.Repeat("ab/", 100), strings.Repeat("x", 255), strings.Repeat("x", 256), "http://h/" + strings.Repeat("ab/", 100) + "/"}
-	var shaT []string
 	n := 0
 	for _, fam := range [][]string{near, hostile, long} {
 		for _, u := range fam {
@@ -675,7 +703,7 @@ func runC15(a *Args) error {
 			n++
 			e.define(name, u)
 			hh := sha256.Sum256([]byte(u))
-			shaT = append(shaT, CPair(name, CStr(string(hh[:]))))
+			e.define(fmt.Sprintf("h%d_", n-1), string(hh[:]))
 		}
 	}
 
@@ -732,7 +760,6 @@ func runC15(a *Args) error {
 		}
 	}
 	fmt.Fprintf(&e.prelude, "Definition crl_tab : list (string * crlfact) := %s.\n", CList(tab))
-	fmt.Fprintf(&e.prelude, "Definition sha_pool : list (string * string) := Eval vm_compute in %s.\n", CList(shaT))
 	w.Prelude = "From NV Require Import Base C15_Model.\nOpen Scope string_scope.\n" + e.prelude.String()
 	return w.Close()
 }
